@@ -146,6 +146,43 @@ def toyStr (t : Toy.TSim) : String :=
   let s := t.s
   s!"pc={s.pc}|cur={on s.addrCur}|next={s.addrNext}|accu={s.accu}|cyc={s.cycles}|ins={s.instrs}|br={s.branches}|max={oi s.maxPc}|ir={optStr (fun i => toString (Toy.encode i)) s.loaded}|vis={visStr s.vis}|nc={t.nextCycle}|started={boolStr t.started}|mem={memDump s.mem}"
 
+def reprsStr (r : Fmt.Reprs) : String := s!"{hex r.bin},{hex r.udec},{hex r.hex},{hex r.sdec}"
+
+def upHex (w : Nat) (n : Nat) : String :=
+  String.ofList (Fmt.padLeft w (Fmt.natStr 16 n))
+
+/-- `get_data_memory_entries()`: ascending ((address, "0x%08X"), representations of the word). -/
+def memTable (m : Mem.Mem) : String :=
+  match Mem.reprEntries m 32 with
+  | .error e => s!"E addr {e.address}"
+  | .ok l => String.intercalate ";" ((l.mergeSort (fun a b => a.1 ≤ b.1)).map fun (a, v) =>
+      s!"{a},{hex ("0x" ++ upHex 8 a.toNat)},{reprsStr (Fmt.nBitRepr v 32)}")
+
+/-- `ToySimulation.get_register_representations()` -/
+def toyRegTable (t : Toy.TSim) : String :=
+  let has := match t.s.maxPc with | some m => decide (m ≥ 0) | none => false
+  let e := "-"
+  let accu := if has then reprsStr (Fmt.nBitRepr t.s.accu 16) else e
+  let pc := if has then reprsStr (Fmt.nBitRepr t.s.pc 12) else e
+  let ir := match t.s.loaded with | some i => reprsStr (Fmt.nBitRepr (Toy.encode i) 16) | none => e
+  s!"accu={accu}|pc={pc}|ir={ir}"
+
+def toyInstrRepr (w : Nat) : String :=
+  let i := Toy.decode w
+  if i.opcode ≤ 7 then Toy.mnemonic i.opcode ++ " 0x" ++ upHex 3 i.addr else Toy.mnemonic i.opcode
+
+/-- `ToySimulation.get_memory_table_entries()` -/
+def toyMemTable (t : Toy.TSim) : String :=
+  match Mem.reprEntries t.s.mem 16 with
+  | .error e => s!"E addr {e.address}"
+  | .ok l =>
+    let cyc := if t.nextCycle = 2 then "1" else "2"
+    String.intercalate ";" ((l.mergeSort (fun a b => a.1 ≤ b.1)).map fun (a, v) =>
+      let isInstr := match t.s.maxPc with | some m => decide (a ≤ m) | none => false
+      let ir := if isInstr then toyInstrRepr v else "-"
+      let mark := if t.s.addrCur = some a.toNat ∧ a ≥ 0 then cyc else ""
+      s!"{a},{hex ("0x" ++ upHex 3 a.toNat)},{reprsStr (Fmt.nBitRepr v 16)},{hex ir},{hex mark}")
+
 /-! ### driver state -/
 
 inductive DC where
@@ -443,6 +480,17 @@ def process (st : State) (line : String) : State × String :=
     match unhex h with
     | some text => let (t, out) := ToyAsm.loadProgram st.toy text; ({ st with toy := t }, out)
     | none => (st, "bad-op")
+  /- displayed tables (C17): register table, data-memory table, TOY registers and memory table -/
+  | ["sim.regtable"] =>
+    match st.sim with
+    | some (_, p) => (st, String.intercalate ";" ((List.range 32).map fun r => reprsStr (Fmt.nBitRepr (p.st.regs r) 32)))
+    | none => (st, "bad-op")
+  | ["sim.memtable"] =>
+    match st.sim with
+    | some (_, p) => (st, memTable p.st.mem.backing)
+    | none => (st, "bad-op")
+  | ["toy.regtable"] => (st, toyRegTable st.toy)
+  | ["toy.memtable"] => (st, toyMemTable st.toy)
   -- inspection functions are `State → View` in the model: no-ops on the state
   | ["sim.insp", _] => (st, "ok")
   | ["toy.insp", _] => (st, "ok")
